@@ -160,7 +160,7 @@ pub fn encode(nodes: &[Node], base: usize, out: &mut Vec<u8>, flat: &mut Vec<(T,
                 let mut tmp = Vec::new();
                 let mut tflat = Vec::new();
                 encode(ch, 0, &mut tmp, &mut tflat);
-                let sf = if *unknown { vec![0x01, 0xFF, 0xFF, 0xFF, 0xFF, 0xFF, 0xFF, 0xFF] } else { sizef(tmp.len(), *width) };
+                let sf = if *unknown { if *width == 1 { vec![0xFF] } else { vec![0x01, 0xFF, 0xFF, 0xFF, 0xFF, 0xFF, 0xFF, 0xFF] } } else { sizef(tmp.len(), *width) };
                 let _ = hdr_len;
                 let child_base = off + idb(*id).len() + sf.len();
                 encode(ch, child_base, &mut inner, &mut iflat);
@@ -181,10 +181,12 @@ fn leaf_variants(id: u64, rich: bool) -> Vec<T> {
     match id {
         UINT => if rich { vec![T::U(UINT, 5), T::U(UINT, 0x1_0000)] } else { vec![T::U(UINT, 5)] },
         INT => if rich { vec![T::I(INT, -3), T::I(INT, 40000), T::I(INT, 128)] } else { vec![T::I(INT, -3), T::I(INT, 128)] },
-        STR => vec![T::S(STR, "a".into())],
+        STR => if rich { vec![T::S(STR, "a".into()), T::S(STR, "\u{e9}\u{0}".into())] } else { vec![T::S(STR, "a".into())] },
         BIN => if rich { vec![T::B(BIN, vec![1, 2]), T::B(BIN, vec![])] } else { vec![T::B(BIN, vec![1, 2])] },
         FLT => vec![T::F(FLT, 1.5)],
         LONG => vec![T::U(LONG, 9)],
+        WIDE3 => vec![T::U(WIDE3, 300)],
+        WIDE4 => vec![T::B(WIDE4, vec![1, 2, 3])],
         CHILD => vec![T::U(CHILD, 7)],
         LEAF => vec![T::U(LEAF, 1)],
         OX => vec![T::U(OX, 2)],
@@ -198,10 +200,10 @@ fn children_of(parent: Option<u64>) -> Vec<u64> {
     use bs::*;
     match parent {
         None => vec![ROOT, OTHER, VOID],
-        Some(ROOT) => vec![UINT, INT, STR, BIN, FLT, LONG, PARENT, VOID, CRC],
+        Some(ROOT) => vec![UINT, INT, STR, BIN, FLT, LONG, WIDE3, PARENT, VOID, CRC],
         Some(PARENT) => vec![CHILD, SUB, CRC, DEEP],
         Some(SUB) => vec![LEAF, DEEP, VOID],
-        Some(OTHER) => vec![OX, CRC],
+        Some(OTHER) => vec![OX, WIDE4, CRC],
         _ => vec![],
     }
 }
@@ -613,7 +615,7 @@ fn check_c13_strict(table: &bs::Table, input: &[u8], tr: &Trace, rep: &mut Repor
     }
 }
 
-pub fn alphabet() -> Vec<u8> { vec![0x81, 0x82, 0x87, 0x88, 0x8B, 0xEC, 0x42, 0x86, 0x80, 0x83, 0xFF, 0x40, 0x01, 0x00, 0x05] }
+pub fn alphabet() -> Vec<u8> { vec![0x81, 0x82, 0x87, 0x88, 0x8B, 0xEC, 0x42, 0x86, 0x80, 0x83, 0xFF, 0x40, 0x01, 0x00, 0x05, 0x21, 0x03] } // 0x21 0x03 0x01 = the 3-byte id Wide3
 
 /// Unit 1: all byte strings of length <= L over the header alphabet (enumeration split over worker threads by first symbol).
 pub fn unit_bytes(l: usize, thorough: bool) -> Report {
@@ -727,6 +729,30 @@ fn doc_work(table: &bs::Table, d: &Vec<Node>, rep: &mut Report, thorough: bool) 
             rep.clause("C01r/C03: a specification-conformant document reads (strict) as exactly its tags, in order, with their offsets, and no error", t.err.is_none() && t.panicked.is_none() && same_items(&t.items, &wflat), || format!("{} width2-bytes={} -> {}", ctxd(), rf::hex(&wb), show_trace(&t)));
             check_input(&table, &wb, &mut *rep, thorough, false);
             check_trunc(&table, &wb, &wflat, &mut *rep);
+        }
+        // every size field eight bytes wide (headers of up to 12 bytes against the 16-byte look-ahead)
+        {
+            let dw = with_width(d, 8);
+            let (wb, wflat) = encode_doc(&dw);
+            let t = run(&wb, &Cfg::strict());
+            rep.clause("C01r/C03: a specification-conformant document reads (strict) as exactly its tags, in order, with their offsets, and no error", t.err.is_none() && t.panicked.is_none() && same_items(&t.items, &wflat), || format!("{} width8-bytes={} -> {}", ctxd(), rf::hex(&wb), show_trace(&t)));
+            check_input(&table, &wb, &mut *rep, thorough, thorough);
+            check_trunc(&table, &wb, &wflat, &mut *rep);
+        }
+        // every master of unknown size with the one-byte marker 0xFF
+        {
+            let m = count_masters(d);
+            if m > 0 && m <= 5 {
+                let mut c = 0;
+                let du = with_width(&with_unknown(d, (1 << m) - 1, &mut c), 1);
+                if !ambiguous(&table, &du, None) {
+                    let (ub, _) = encode_doc(&du);
+                    let t = run(&ub, &Cfg::strict());
+                    let same = t.err.is_none() && t.items.len() == flat.len() && t.items.iter().zip(flat.iter()).all(|(a, b)| rf::tag_eq(&a.0, &b.0));
+                    rep.clause("C07: a document with any subset of masters encoded with unknown size reads as the same tag sequence as the all-known-size encoding", same, || format!("{} one-byte unknown markers bytes={} -> {}", ctxd(), rf::hex(&ub), show_trace(&t)));
+                    check_input(&table, &ub, &mut *rep, thorough, false);
+                }
+            }
         }
         check_recover(&table, &bytes, &flat, &mut *rep, thorough);
         check_mutations(&table, &bytes, &mut *rep, thorough);
